@@ -41,7 +41,8 @@ def plan_c19(tier, seed):
     n = 1_000_000 if tier == "quick" else 40_000_000
     runs = []
     # all four combinations of (debug assertions, overflow checks)
-    for v in ("std-debug", "std-release", "std-release-ovf", "std-debug-wrap"):
+    # ... and the release build generated for the build host's full instruction set
+    for v in ("std-debug", "std-release", "std-release-ovf", "std-debug-wrap", "std-release-native"):
         if tier == "quick":
             runs.append(Run(v, "c19", ["seed=%d" % seed, "random=%d" % (n if v in ("std-debug", "std-release") else n // 4)], timeout=300))
         else:
@@ -71,11 +72,14 @@ def plan_c20(tier, seed):
     # "regardless of the host": the same monitor interpreted by Miri for a BIG-ENDIAN target (s390x)
     # and for the little-endian host, on a thinned-out value set; first operations included
     interp = [Run("miri-be", "c20", ["seed=%d" % seed, "first=%d" % (seed % 9)], timeout=1500),
+              Run("miri-ppc64le", "c20", ["seed=%d" % (seed + 1), "first=%d" % ((seed + 2) % 9)], timeout=1500),
               Run("miri", "c20", ["seed=%d" % seed, "first=%d" % ((seed + 4) % 9)], timeout=1500)]
     if tier == "quick":
         return firsts + interp + [Run("std-release", "c20", ["seed=%d" % seed, "tier=quick"], timeout=300),
                                   Run("std-debug", "c20", ["seed=%d" % seed, "tier=quick", "random32=200000", "random64=300000"], timeout=300)]
     interp += [Run("miri-be", "c20", ["seed=%d" % (seed + s), "first=%d" % k, "random64=2000", "random32=2000"], timeout=3400) for s, k in ((1, 1), (2, 3), (3, 5), (4, 7))]
+    interp += [Run("miri-aarch64", "c20", ["seed=%d" % (seed + 5), "first=2"], timeout=3400),
+               Run("miri-ppc64le", "c20", ["seed=%d" % (seed + 6), "first=6", "random64=2000", "random32=2000"], timeout=3400)]
     return firsts + interp + [Run("std-release", "c20", ["seed=%d" % seed, "tier=thorough"], timeout=3000),
                               Run("std-debug", "c20", ["seed=%d" % seed, "tier=quick"], timeout=900)]
 
@@ -271,11 +275,15 @@ def _plan_c0516(tier, seed):
     if tier == "quick":
         runs = shards("std-debug", "c05", 8, ["seed=%d" % seed, "cases=8000"], timeout=600)
         runs += shards("xen-debug", "c05", 2, ["seed=%d" % (seed + 3), "cases=2000"], timeout=600)
+        # weak-memory litmus (interpreter only): a tracked write spanning two bitmap words vs a harvester
+        runs.append(Run("miri", "c05", ["wmlitmus=4"], timeout=900, miri_flags="-Zmiri-many-seeds=0..32"))
         return runs
     runs = shards("std-debug", "c05", 16, ["seed=%d" % seed, "cases=300000", "litmus=30000000"], timeout=3400)
     runs += shards("std-release", "c05", 8, ["seed=%d" % (seed + 1), "cases=160000", "litmus=100000000"], timeout=3400)
     runs += shards("xen-debug", "c05", 4, ["seed=%d" % (seed + 3), "cases=80000"], timeout=3400)
     runs += shards("miri", "c05", 16, ["seed=%d" % seed, "cases=900", "maxops=40"], timeout=3400)
+    for rate in ("", " -Zmiri-preemption-rate=0.1", " -Zmiri-preemption-rate=0.3"):
+        runs.append(Run("miri", "c05", ["wmlitmus=6"], timeout=3400, miri_flags="-Zmiri-many-seeds=0..192" + rate))
     return runs
 
 
@@ -332,8 +340,12 @@ prop("C13", level="exploration",
 def plan_c13(tier, seed):
     if tier == "quick":
         return [Run("std-debug", "c13", ["seed=%d" % seed, "cases=2000"], timeout=600, crash_is_violation=True),
-                Run("std-release", "c13", ["seed=%d" % (seed + 1), "cases=2000", "nogrid"], timeout=600, crash_is_violation=True)]
-    runs = shards("std-debug", "c13", 8, ["seed=%d" % seed, "cases=200000", "grid=40"], timeout=3400, crash_is_violation=True)
+                Run("std-release", "c13", ["seed=%d" % (seed + 1), "cases=2000", "nogrid"], timeout=600, crash_is_violation=True),
+                # Xen build: the fd adapters with buffers inside an on-demand grant region
+                Run("xen-debug", "c13", ["seed=%d" % (seed + 2), "cases=100", "nogrid"], timeout=600, crash_is_violation=True)]
+    runs = [Run("xen-debug", "c13", ["seed=%d" % (seed + 2), "cases=20000", "nogrid"], timeout=3400, crash_is_violation=True),
+            Run("xen-release", "c13", ["seed=%d" % (seed + 4), "cases=20000", "nogrid"], timeout=3400, crash_is_violation=True)]
+    runs += shards("std-debug", "c13", 8, ["seed=%d" % seed, "cases=200000", "grid=40"], timeout=3400, crash_is_violation=True)
     runs += shards("std-release", "c13", 4, ["seed=%d" % (seed + 1), "cases=100000", "nogrid"], timeout=3400, crash_is_violation=True)
     runs += shards("asan", "c13", 4, ["seed=%d" % (seed + 2), "cases=20000"], timeout=3400)
     runs += shards("miri", "c13", 16, ["seed=%d" % seed, "cases=320", "nogrid"], timeout=3400)
